@@ -19,7 +19,7 @@ from typing import Any, Dict, List, Optional
 
 from adaptix import DebugTrail, ExtraForbid, Retort, name_mapping
 from adaptix import P
-from adaptix.conversion import ConversionRetort, get_converter, impl_converter, link, link_constant, link_function
+from adaptix.conversion import ConversionRetort, coercer, get_converter, impl_converter, link, link_constant, link_function
 
 from mc import codec, parallel
 from mc.matrix import MODES, mode_name
@@ -386,6 +386,76 @@ def leg_class_names(names, report):
 
 
 # ------------------------------------------------------------------------------------------------------------
+# leg 3b: every class of characters a model or function name may contain
+#
+# The generators derive identifiers from __name__ (closure names, names of captured globals).  What happens to a character depends
+# only on: its general category, whether ``\w`` matches it, whether it may continue an identifier, whether NFKC changes it (and into
+# what), whether it is ASCII.  The code points are partitioned by that tuple (83 classes); the quick tier names a class after the
+# first, the middle and the last code point of every class, the thorough tier after EVERY code point of the classes in which the
+# three notions of "word character" disagree (about 8 000), each at the head and in the tail of the name.
+
+def char_classes():
+    import re
+    import sys
+    import unicodedata
+    word = re.compile(r"\w")
+    classes = {}
+    for cp in range(sys.maxunicode + 1):
+        if 0xD800 <= cp <= 0xDFFF:  # noqa: PLR2004
+            continue
+        c = chr(cp)
+        n = unicodedata.normalize("NFKC", c)
+        key = (unicodedata.category(c), bool(word.match(c)), ("_" + c).isidentifier(), n == c,
+               all(("_" + x).isidentifier() for x in n), len(n) > 1, cp < 128)  # noqa: PLR2004
+        classes.setdefault(key, []).append(cp)
+    return classes
+
+
+def name_char_items(tier):
+    cps = []
+    for key, members in sorted(char_classes().items()):
+        disagree = key[1] != key[2] or not key[3]
+        if tier == "thorough" and disagree:
+            cps.extend(members)
+        else:
+            cps.extend({members[0], members[len(members) // 2], members[-1]})
+    return sorted(set(cps))
+
+
+def leg_name_chars(cps, report):
+    from adaptix.conversion import link_function as lf
+    for cp in cps:
+        c = chr(cp)
+        for name in (f"M{c}x", f"{c}M", f"M{c}"):
+            case = {"leg": "name_chars", "codepoint": cp, "name": name}
+            what = f"class and function named {name!r} (U+{cp:04X})"
+            try:
+                cls = dataclasses.make_dataclass("Tmp", [("a", int)])
+                dst = dataclasses.make_dataclass("Tmp2", [("a", int), ("z", Any)])
+                cls.__name__ = cls.__qualname__ = dst.__name__ = dst.__qualname__ = name
+
+                def fn(s):
+                    return ("fn", s.a)
+                fn.__name__ = fn.__qualname__ = name
+            except Exception:  # noqa: BLE001
+                report.skip("Python refuses the name")
+                continue
+            report.case(("C19.name_chars", name), nontrivial=True, sample=case)
+            try:
+                r = Retort()
+                ok = r.load({"a": 1}, cls).a == 1 and r.dump(cls(2)) == {"a": 2}
+                out = get_converter(cls, dst, recipe=[lf(fn, P[dst].z)])(cls(3))
+                ok = ok and (out.a, out.z) == (3, ("fn", 3))
+            except Exception as e:  # noqa: BLE001
+                report.violation({"check": "C19.name_chars", "problem": "creation_failed", "exc": type(e.__cause__ or e).__name__},
+                                 f"{what}: {type(e).__name__}: {str(e.__cause__ or e)[:200]}", case)
+                continue
+            report.outcome("name_chars: built and run")
+            if not ok:
+                report.violation({"check": "C19.name_chars", "problem": "wrong_result"}, f"{what}: wrong result", case)
+
+
+# ------------------------------------------------------------------------------------------------------------
 # leg 4: converter — field names, function names, extra parameters, stub defaults
 
 class Color(enum.Enum):
@@ -530,6 +600,39 @@ def leg_converter(items, report):
                 ])
                 out = conv(src(1, inner_s(2)))
                 ok = (out.a, out.i.n, out.y, out.i.k) == (1, 2, ("fn", 1), ("fn2", 2)) and out.z is marker
+            elif kind in ("link_factory", "link_factory_named"):
+                # the factory IS a builtin (or a user function carrying the name of one): the generators capture it under its name
+                if kind == "link_factory_named":
+                    def named_factory():
+                        return ["made"]
+                    named_factory.__name__ = named_factory.__qualname__ = value
+                    value = named_factory  # noqa: PLW2901
+                inner_s = dataclasses.make_dataclass("SI", [("n", int)])
+                inner_d = dataclasses.make_dataclass("DI", [("n", int), ("k", Any)])
+                src = dataclasses.make_dataclass("S", [("a", int), ("i", inner_s)])
+                dst = dataclasses.make_dataclass("D", [("a", int), ("i", inner_d), ("z", Any), ("y", Any)])
+                conv = get_converter(src, dst, recipe=[link_constant(P[dst].z, factory=value), link_constant(P[dst].y, factory=value),
+                                                       link_constant(P[inner_d].k, factory=value)])
+                out = conv(src(1, inner_s(2)))
+                want = value()
+                same = lambda got: type(got) is type(want) and (got == want or type(want) is object)  # noqa: E731
+                ok = (out.a, out.i.n) == (1, 2) and same(out.z) and same(out.y) and same(out.i.k)
+            elif kind == "link_function_builtin":
+                src = dataclasses.make_dataclass("S", [("a", int)], namespace={
+                    "__len__": lambda self: 3, "__hash__": lambda self: 11, "__iter__": lambda self: iter((1, 0)),
+                    "__abs__": lambda self: 7, "__index__": lambda self: 12})
+                dst = dataclasses.make_dataclass("D", [("a", int), ("z", Any)])
+                obj = src(1)
+                want = value(obj)
+                conv = get_converter(src, dst, recipe=[link_function(value, P[dst].z)])
+                out = conv(obj)
+                ok = out.a == 1 and type(out.z) is type(want) and out.z == want
+            elif kind == "coercer_builtin":
+                src = dataclasses.make_dataclass("S", [("a", int), ("b", List[int])])
+                dst = dataclasses.make_dataclass("D", [("a", str), ("b", List[str])])
+                conv = get_converter(src, dst, recipe=[coercer(int, str, func=value)])
+                out = conv(src(65, [66]))
+                ok = (out.a, out.b) == (value(65), [value(66)])
             elif kind == "model_name":
                 inner_s = dataclasses.make_dataclass("SI", [("n", int)])
                 inner_d = dataclasses.make_dataclass("DI", [("n", int), ("k", Any)])
@@ -570,7 +673,7 @@ def shard_fn(args):
     _TIER[0] = tier
     report = Report()
     {"ident": leg_identifiers, "keys": leg_keys, "classes": leg_class_names, "conv": leg_converter,
-     "kwfields": leg_keyword_fields}[leg](items, report)
+     "kwfields": leg_keyword_fields, "namechars": leg_name_chars}[leg](items, report)
     return report
 
 
@@ -604,7 +707,15 @@ def run(tier):
     conv_items += [("link_constant", v) for v in CONSTANTS]
     conv_items += [("link_function_name", x) for x in ids + DERIVED_NAMES + CLASS_NAMES]
     conv_items += [("model_name", (w, x)) for w in ("dst", "src", "both") for x in ids + DERIVED_NAMES + CLASS_NAMES]
+    builtin_factories = [set, list, dict, tuple, bytearray, str, int, float, object, frozenset, bytes, bool, complex]
+    conv_items += [("link_factory", f) for f in builtin_factories]
+    conv_items += [("link_factory_named", x) for x in [*BUILTINS, "constant_0", "g_set", "factory_0"]]
+    conv_items += [("link_function_builtin", f) for f in (len, repr, id, hash, callable, ascii, any, all, abs, list, tuple, bin, oct, hex)]
+    conv_items += [("coercer_builtin", f) for f in (str, repr, hex, bin, oct, ascii, chr, format, float, bool)]
     shards += [("conv", conv_items[i::16], tier) for i in range(16) if conv_items[i::16]]
+    cps = name_char_items(tier)
+    report.count("name_char_codepoints", len(cps))
+    shards += [("namechars", cps[i::32], tier) for i in range(32) if cps[i::32]]
     report.count("identifier_pairs", len(pairs))
     report.count("keys", len(KEYS))
     parallel.run_shards(shard_fn, shards, report=report)
